@@ -441,6 +441,12 @@ pub enum Op {
     OpenWriter { h: u8, name: String, dseed: u32 },
     WriterStep { h: u8, step: WStep },
     DropWriter { h: u8 },
+    /// `UPDATE _Validation SET Nullable, MinValue, MaxValue WHERE Table = t AND Column = c`
+    /// through the query API: the file's catalog then differs from the
+    /// definitions held in memory until the next open.  The model does not
+    /// follow catalog edits, so from here to the end of the run only oracles
+    /// that compare the library with itself apply (C04 before/after and twin).
+    CatalogEdit { table: String, column: String, nullable: bool, min: Option<i32>, max: Option<i32> },
 }
 
 impl Op {
@@ -477,6 +483,7 @@ impl Op {
             Op::OpenWriter { .. } => "open_writer",
             Op::WriterStep { .. } => "writer_step",
             Op::DropWriter { .. } => "drop_writer",
+            Op::CatalogEdit { .. } => "catalog_edit",
         }
     }
     pub fn is_mutation(&self) -> bool {
